@@ -73,7 +73,8 @@ def shrink_mismatch(exe, r, gates=()):
 
     def still(cands):
         res, bad, _ = run_suite(exe, cands, timeout=1, gates=gates)
-        badset = {id(b) for b in bad}
+        # a candidate that reads an undefined name is ill-formed unless the original did so too
+        badset = {id(b) for b in bad if b.status != "exit1:other" or r.status == "exit1:other"}
         return [id(x) in badset for x in res]
     small = sh.shrink(r.sexp, still)
     res, bad, _ = run_suite(exe, [small], gates=gates)
